@@ -696,6 +696,7 @@ def r26_append_order(ctx, rule='R26'):
                 run.check(ok, rule, where(ctx.repo, x), f.qualname, x,
                           'the rebuilt resource list does not keep the existing resources first')
         # stream phase: `yield from super().process_resources(resources)` dominates every other yield
+        pr = ctx.N(pr)         # (explicit iterator pulls read as the zip loop they spell)
         param = pr.params[1] if len(pr.params) > 1 else None
         for p in Enumerator(where=pr.qualname).paths(pr.node.body):
             first = None
